@@ -16,7 +16,9 @@ StartLinking == phase = "grow" /\ Len(tree) >= 1 /\ phase' = "link" /\ UNCHANGED
 Unlinked == { i \in 1..Len(tree) : tree[i].k = "link" /\ tree[i].t = 0 }
 SetTarget == /\ phase = "link" /\ Unlinked # {}
              /\ LET i == CHOOSE x \in Unlinked : \A y \in Unlinked : x <= y IN
-                \E t \in 1..Len(tree) : /\ t # i /\ tree[t].k # "link" /\ ~IsAncestor(tree, t, i)
+                \* a file, a directory, or a link that already has its target (lower index: links are targeted in index order)
+                \E t \in 1..Len(tree) : /\ t # i /\ (tree[t].k = "link" => t < i)
+                                        /\ Resolve(tree, t) # 0 /\ ~IsAncestor(tree, Resolve(tree, t), i)
                                         /\ tree' = [tree EXCEPT ![i].t = t]
              /\ UNCHANGED <<phase, deref>>
 Finish == phase = "link" /\ Unlinked = {} /\ phase' = "done" /\ UNCHANGED <<tree, deref>>
